@@ -62,6 +62,8 @@ pub struct Tweaks {
     pub use_grad_based_estimate: Option<bool>,
     pub method: Option<StepSizeAdaptMethod>,
     pub jitter: Option<Option<f64>>,
+    /// `dual_average.max_step_size`
+    pub max_step_size: Option<f64>,
     pub step_size_window: Option<f64>,
     pub early_window: Option<f64>,
     pub switch_freq: Option<u64>,
@@ -96,6 +98,7 @@ impl Default for Tweaks {
             use_grad_based_estimate: None,
             method: None,
             jitter: None,
+            max_step_size: None,
             step_size_window: None,
             early_window: None,
             switch_freq: None,
@@ -137,6 +140,9 @@ macro_rules! apply_euclid_adapt {
         }
         if let Some(v) = $t.jitter {
             $s.adapt_options.step_size_settings.jitter = v;
+        }
+        if let Some(v) = $t.max_step_size {
+            $s.adapt_options.step_size_settings.adapt_options.dual_average.max_step_size = v;
         }
         $s.adapt_options.mass_matrix_options.store_mass_matrix = $t.store_mass_matrix;
     }};
@@ -228,6 +234,9 @@ pub fn flow_nuts(t: &Tweaks) -> FlowNutsSettings {
     if let Some(v) = t.jitter {
         s.adapt_options.step_size_settings.jitter = v;
     }
+    if let Some(v) = t.max_step_size {
+        s.adapt_options.step_size_settings.adapt_options.dual_average.max_step_size = v;
+    }
     if let Some(v) = t.update_freq {
         s.adapt_options.transform_update_freq = v.max(1);
     }
@@ -259,6 +268,9 @@ pub fn flow_mclmc(t: &Tweaks) -> FlowMclmcSettings {
     }
     if let Some(v) = t.jitter {
         s.adapt_options.step_size_settings.jitter = v;
+    }
+    if let Some(v) = t.max_step_size {
+        s.adapt_options.step_size_settings.adapt_options.dual_average.max_step_size = v;
     }
     if let Some(v) = t.update_freq {
         s.adapt_options.transform_update_freq = v.max(1);
